@@ -604,7 +604,7 @@ func (x *Exec) CallFunction(fn *ssa.Function, args []Value, binds []Value, g *Te
 	if len(fn.Blocks) == 0 {
 		x.fail("function %s has no body and no stub", fn.String())
 	}
-	if x.depth > 14 && x.depth%3 == 0 && !x.feasible(x.act(g)) {
+	if x.depth > 14 && x.depth%3 == 0 && !x.feasible(g) {
 		// deep (re-entrant) call chain whose guard is unsatisfiable: not taken
 		return x.zeroResults(fn.Signature)
 	}
